@@ -57,7 +57,7 @@ VOCAB_ALL = ["RULE", "CATEGORY", "DESCRIPTION", "EXAMPLE", "RELATED", "SUPERIORS
              "a", "b", "d", "zz", "x1", "x2", "r1", "r2", "C", "NCBI", "0", "2", "007", "cluster", "score", "1-200", "9-3",
              "-1", "a!b"]
 # every token text the generator can emit (for the code point table handed to the model)
-ALL_TEXTS = sorted(set(VOCAB_ALL) | {"r0", "r3", "r4", "r9", "D", "Nope", "c", "e", "f", "some", "text", "more", "x", "AB123", "CD5",
+ALL_TEXTS = sorted(set(VOCAB_ALL) | {"r0", "r3", "r4", "r5", "r9", "D", "Nope", "c", "e", "f", "some", "text", "more", "x", "AB123", "CD5",
                                      "compound", "name", "1", "3", "4", "5", "7", "10", "15", "20"})
 
 
